@@ -135,7 +135,15 @@ def encoder(ctx, gen):
             if name == "ZQC":
                 paths = [p for p in mat if p[0][1] == code and len(p) >= 2 and str(p[-1][1]) == sub]
             elif name == "WR":
-                paths = [p for p in mat if p[0][1] == code and len(p) == 2 and str(p[1][1]) == p[1][0]]
+                # masked / unmasked write is chosen by a configuration constant: by a two-entry Case (whose live arm has key == selector)
+                # or by an If/Else the elaborator has already folded (then the path has no second element)
+                def live(p):
+                    for sel_, val_ in p[1:]:
+                        cv = {"True": 1, "False": 0}.get(sel_, int(sel_) if sel_.lstrip("-").isdigit() else None)
+                        if cv is None or int(val_) != cv:
+                            return False
+                    return True
+                paths = [p for p in mat if p[0][1] == code and live(p)]
             else:
                 paths = [p for p in mat if p == ((p[0][0], code),)]
             if not ob.need(len(paths) == 1, "LPDDR%d: case path for DFI %s not found (%s)" % (gen, dk, [p for p in mat if p[0][1] == code])):
